@@ -16,7 +16,8 @@ Syn == Is("syn") /\ C!Syn(Trace[l].c, Trace[l].emitted)
 Ack == Is("ack") /\ C!Ack(Trace[l].c, Trace[l].emitted)
 Data == Is("data") /\ C!Data(Trace[l].c, Trace[l].n, Trace[l].emitted)
 Fin == Is("fin") /\ C!Fin(Trace[l].c, Trace[l].n, Trace[l].emitted)
-Next == Reset \/ Syn \/ Ack \/ Data \/ Fin
+Rst == Is("rst") /\ C!Rst(Trace[l].c, Trace[l].emitted)
+Next == Reset \/ Syn \/ Ack \/ Data \/ Fin \/ Rst
 Spec == Init /\ [][Next]_<<st, rcvd, finSeen, lastSeq, l>>
 HighWater == TLCSet(1, IF TLCGet(1) < l THEN l ELSE TLCGet(1))
 Accepted == TLCGet(1) = Len(Trace) + 1 \/ (PrintT(<<"REJECTED_AT", TLCGet(1)>>) /\ FALSE)
